@@ -11,16 +11,19 @@ RULE = ("generated functions: nested try/except(typed, bare, as-name)/else/final
         "itself and probes sys.exc_info(); each function is run in three calling contexts (nothing "
         "handled, inside a handler, from a generator frame inside a handler). distinct by (program, "
         "context); non-trivial = at least one exception is raised while the trace has >= 2 events")
-EXPLANATION = ("theorems: for ALL programs of the statement language (incl. with-blocks, loops, as-name "
-               "deletion) the compiler scheme (ExceptionSave/GetException/ExceptionReset/ExceptionSwap, "
-               "the temps of the handler, WithTransform and the as-name try/finally rewriting) yields the "
-               "same outcome, log (blocks, sys.exc_info() probes with full __context__/__cause__/"
-               "__suppress_context__ snapshots, __exit__ arguments) and final heap as CPython's "
-               "PUSH_EXC_INFO/POP_EXCEPT semantics, unless the scheme reaches the zeroed-temps state "
-               "(refuted with a witness; full theorem for the repaired ReraiseStatNode); top exc_info item "
-               "restored exactly when nothing is handled underneath (refuted otherwise). partial: except* "
-               "is differential only (compiled vs CPython, no model); tracebacks excluded; generators "
-               "bodies (yield inside try) excluded.")
+EXPLANATION = ("theorems: for ALL programs of the statement language without with-blocks (raise / raise from / "
+               "bare raise, try/except typed-bare-as with the implicit deletion, else, finally, loops with "
+               "return/break/continue, probes; any nesting) and all calling contexts, the compiler scheme "
+               "(ExceptionSave/GetException/ExceptionReset/ExceptionSwap, handler temps, the GetException-skipping "
+               "optimisation, the as-name try/finally rewriting) yields the same outcome incl. exception identity, "
+               "the same log (blocks, sys.exc_info() probes with snapshots of every __context__/__cause__/"
+               "__suppress_context__) and the same sys.exc_info() afterwards as CPython's PUSH_EXC_INFO/POP_EXCEPT "
+               "semantics -- unconditionally for the repaired ReraiseStatNode, and for the current code unless the "
+               "zeroed-temps state is reached (refuted with a witness); the top exc_info item is restored exactly "
+               "when nothing is handled underneath or ExceptionSave is repaired (refuted otherwise); finally runs "
+               "once; return in finally swallows. partial: with-blocks (WithTransform) are modelled and run in the "
+               "correspondence but not covered by the theorems; except* is differential only (compiled vs CPython, "
+               "no model); tracebacks and yield inside try are excluded.")
 TRUSTED = ["reference semantics exec_ref written from CPython 3.12 ceval.c/errors.c (validated against the "
            "running CPython on every case)",
            "CPython 3.12 as the property oracle",
@@ -29,8 +32,8 @@ ASSUMPTIONS = ["CPython 3.12, CYTHON_FAST_THREAD_STATE and CYTHON_USE_EXC_INFO_S
                "exception classes without custom __init__/__eq__; context managers are ordinary Python objects"]
 
 # flags to flip after the proposed fixes are applied to /repo
-FX_RERAISE = os.environ.get("C22_FX_RERAISE", "0") == "1"   # proposed_fixes/C22-bare_reraise_twice.diff
-FX_SLOT = os.environ.get("C22_FX_SLOT", "0") == "1"         # proposed_fixes/C22-exc_info_slot.diff
+FX_RERAISE = os.environ.get("C22_FX_RERAISE", "1") == "1"   # proposed_fixes/C22-bare_reraise_twice.diff
+FX_SLOT = os.environ.get("C22_FX_SLOT", "1") == "1"         # proposed_fixes/C22-exc_info_slot.diff
 
 HELPER = r'''
 import sys
@@ -58,6 +61,8 @@ def D(e, depth=4):
                                      D(e.__context__, depth - 1), 1 if e.__suppress_context__ else 0)
 def _b(n):
     LOG.append("B%d" % n)
+def _t():
+    return True
 def _p():
     LOG.append("P[%s]" % D(sys.exc_info()[1]))
 class _cm(object):
@@ -264,9 +269,36 @@ def src_stmt(s, ind, out):
 
 
 def func_source(name, prog):
-    out = ["def %s():" % name, "    x1 = x2 = None", "    del x1, x2"]
+    out = ["def %s():" % name]
     src_block(prog, "    ", out)
     return "\n".join(out) + "\n"
+
+
+def names_ok(b, scope=frozenset()):
+    """every name use lies inside the handler that binds it and no handler rebinds a name in scope
+    (Cython rejects reads of definitely-unbound locals at compile time: outside the property)"""
+    for s in b:
+        t = s[0]
+        if t == "raise":
+            if s[1][0] == "var" and s[1][1] not in scope:
+                return False
+            if s[2][0] == "fromvar" and s[2][1] not in scope:
+                return False
+        elif t == "try":
+            if not names_ok(s[1], scope) or not names_ok(s[3] or [], scope):
+                return False
+            for pat, name, body in s[2]:
+                if name is not None and name in scope:
+                    return False
+                if not names_ok(body, scope | {name} if name is not None else scope):
+                    return False
+        elif t == "fin":
+            if not names_ok(s[1], scope) or not names_ok(s[2], scope):
+                return False
+        elif t in ("with", "loop"):
+            if not names_ok(s[-1], scope):
+                return False
+    return True
 
 
 def size(b):
@@ -310,7 +342,7 @@ class Gen:
 
     def what(self):
         r = self.rng
-        return ("new", r.choice([3, 4, 5])) if r.random() < 0.8 else ("var", r.choice([1, 2]))
+        return ("new", r.choice([3, 4, 5])) if r.random() < 0.7 else ("var", r.choice([1, 2, 3]))
 
     def cause(self):
         r = self.rng
@@ -321,7 +353,7 @@ class Gen:
             return ("fromnone",)
         if x < 0.87:
             return ("fromnew", r.choice([3, 4, 5]))
-        return ("fromvar", r.choice([1, 2]))
+        return ("fromvar", r.choice([1, 2, 3]))
 
     def leaf(self, in_loop):
         r = self.rng
@@ -358,7 +390,7 @@ class Gen:
         hs = []
         for _ in range(r.choice([1, 1, 1, 2])):
             pat = r.choice([3, 4, 5, 0])
-            name = r.choice([None, None, 1, 2])
+            name = r.choice([None, None, 1, 2, 3])
             body = self.block(depth, in_loop, 2) if r.random() < 0.85 else r.choice([[], [("ret",)]])
             hs.append((pat, name, body))
         if r.random() < 0.35:
@@ -391,7 +423,7 @@ class Gen:
                 p.append(("probe",))
                 p.append(self.compound(1, False))
             p.append(("probe",))
-            if 4 <= size(p) <= 40 and c_cost(p) <= 260:
+            if 4 <= size(p) <= 40 and c_cost(p) <= 200 and names_ok(p):
                 return p
 
 
@@ -453,7 +485,8 @@ def systematic():
                             else:
                                 oh[p] = blk(("raise", ("new", 5), ("nocause",)) if (p == "body" and ip != "body") else None)
                         outer = of(oh)
-                        yield ("%s.%s/%s.%s/a%d" % (on, ip, inn, ap, ai), [outer, ("probe",)])
+                        if names_ok([outer]):
+                            yield ("%s.%s/%s.%s/a%d" % (on, ip, inn, ap, ai), [outer, ("probe",)])
 
 
 # hand-written regression programs for the two defect families and the optimised paths
@@ -476,7 +509,7 @@ def fixed_programs():
           ("try", [("raise", ("new", 4), ("nocause",))], [(None, None, [("ret",)])], None)]),
         ("fixed/handler_probe_after_nested",
          [("try", [R], [(3, 1, [("try", [("raise", ("new", 4), ("fromvar", 1))], [(4, 2, [("probe",)])], None),
-                                ("probe",), ("raise", ("var", 2), ("nocause",))])], None)]),
+                                ("probe",), ("raise", ("var", 1), ("fromnone",))])], None)]),
         ("fixed/return_in_finally_swallows",
          [("loop", 2, [("fin", [("log", 1), R], [("probe",), ("cont",)])]), ("probe",),
           ("fin", [R], [("probe",), ("ret",)])]),
@@ -509,7 +542,8 @@ def s2():
         raise _new(3)
     except* E3 as eg:
         _b(1); _p()
-        return len(eg.exceptions)
+        n = len(eg.exceptions)
+    return n
 def s3():
     try:
         try:
@@ -596,11 +630,11 @@ def build_modules(ctx, progs, per_module):
     for i in range(0, len(progs), per_module):
         chunk = progs[i:i + per_module]
         name = "c22m%d" % (i // per_module)
-        src = ["# cython: language_level=3", "from c22h import _b, _p, _new, _cm, E3, E4, E5", ""]
+        src = ["# cython: language_level=3", "from c22h import _b, _p, _t, _new, _cm, E3, E4, E5", ""]
         for j, (tag, p) in enumerate(chunk):
             src.append(func_source("f%d" % j, p))
             index.append((name, "f%d" % j, tag, p))
-        specs.append(dict(name=name, source="\n".join(src), workdir=ctx.workdir))
+        specs.append(dict(name=name, source="\n".join(src), workdir=ctx.workdir, cflags=["-O0"]))
     return specs, index
 
 
@@ -630,15 +664,15 @@ def run(ctx):
         f.write(RUNNER)
     progs = list(fixed_programs())
     allsys = list(systematic())
-    nsys, nrand = (170, 130) if quick else (len(allsys), 1500)
+    nsys, nrand = (26, 20) if quick else (260, 180)
     if nsys < len(allsys):
         allsys = ctx.rng.sample(allsys, nsys)
     progs += allsys
     g = Gen(ctx.rng)
     for i in range(nrand):
         progs.append(("rand/%d" % i, g.program()))
-    specs, index = build_modules(ctx, progs, 25 if quick else 40)
-    specs.append(dict(name="c22star", source="# cython: language_level=3\n" + STAR, workdir=ctx.workdir))
+    specs, index = build_modules(ctx, progs, 6 if quick else 20)
+    specs.append(dict(name="c22star", source="# cython: language_level=3\n" + STAR, workdir=ctx.workdir, cflags=["-O0"]))
     built = cybuild.build_many(specs, jobs=12)
     bad_mods = set()
     for (so, err), sp in zip(built, specs):
@@ -661,8 +695,8 @@ def run(ctx):
     for (mod, fn, tag, p, c) in meta:
         tk = " ".join(toks_block(p))
         mq.append("ref %d %s" % (c, tk))
-        mq.append("sch %d %d %s" % (1 if FX_RERAISE else 0, c, tk))
-        mq.append("sch 1 %d %s" % (c, tk))
+        mq.append("sch %d %d %d %s" % (1 if FX_RERAISE else 0, 1 if FX_SLOT else 0, c, tk))
+        mq.append("sch 1 %d %d %s" % (1 if FX_SLOT else 0, c, tk))
     mres = model.batch(mq)
     nviol = 0
     for i, (mod, fn, tag, p, c) in enumerate(meta):
@@ -725,7 +759,7 @@ def replay(ctx, obj):
                                setup="import c22run")
     else:
         fn = re.match(r"def (\w+)", inp["source"]).group(1)
-        src = "# cython: language_level=3\nfrom c22h import _b, _p, _new, _cm, E3, E4, E5\n\n" + inp["source"]
+        src = "# cython: language_level=3\nfrom c22h import _b, _p, _t, _new, _cm, E3, E4, E5\n\n" + inp["source"]
         cybuild.build("c22rp", src, ctx.workdir)
         r = cybuild.call_cases(ctx.workdir, [["c22run.run", ["c22rp", fn, inp["ctx"], w]] for w in ("cy", "py")],
                                setup="import c22run")
